@@ -1101,7 +1101,10 @@ class TypeBlocks(ContainerOperand):
                     if retain_key_order:
                         indices = (self._index[x] for x in key)
                     else:
-                        indices = (self._index[x] for x in sorted(key))
+                        # negative positions count from the end: normalise before sorting
+                        size = self._shape[1]
+                        indices = (self._index[x] for x in sorted(
+                                x + size if -size <= x < 0 else x for x in key))
                 elif key is None: # get all
                     indices = self._index
                 else:
